@@ -393,6 +393,11 @@ func init() {
 		reg(&explore.Suite{Name: fmt.Sprintf("live-eager3-d%d", d), Cfg: sim.Config{Voters: 3, SnapAt: 2, SnapNodes: []int{2}}, Seed: seedLeader3, Monitors: snapMonitors, Leaf: monitor.Continuation(150),
 			Budget: sim.Budget{Timeouts: 1, Elapses: 1, Beats: 2, Writes: 2, Cuts: 1, Reorders: -1, Splits: 2, Deviations: d}})
 	}
+	// one voter growing a cluster (C15): non-voters are added, crash, the voter restarts
+	for d := 0; d <= 4; d++ {
+		reg(&explore.Suite{Name: fmt.Sprintf("live-mem1-d%d", d), Cfg: sim.Config{Voters: 1, Spares: 1}, Monitors: memberMonitors, Classify: memberClassify, Leaf: monitor.Continuation(150),
+			Budget: sim.Budget{Timeouts: 2, Elapses: 1, Beats: 1, Writes: 1, Members: 2, Crashes: 1, Restarts: 1, Reorders: -1, Splits: 1, Deviations: d}})
+	}
 	// C15: exploration families with the fault-free continuation evaluated on
 	// every leaf (quick) or every distinct state (thorough, suffix "all").
 	for d := 0; d <= 4; d++ {
